@@ -540,12 +540,32 @@ func init() {
 		Assumptions: []string{"'the value written for m in s' is the p.vals component of the reference fold: the code of the value of the (unique) element whose abbreviation is m, 0 (X / ND) when absent"},
 	}
 	props["C13"] = &PropDef{
-		ID:      "C13",
-		Tasks:   parserTasks(`/post/accept_implies_prefix/|/loop\d|/lemma/`, false),
-		Lemmas:  headerLemmas,
+		ID: "C13",
+		Tasks: func(tier string) []Task {
+			ts := parserTasks(`/post/accept_implies_prefix/|/loop\d|/lemma/`, false)(tier)
+			for _, p := range allPkgs {
+				ts = append(ts, Task{Pkg: p, Func: "(" + typeOf(p) + ").Vector", Opts: RunOpts{TrackAllocs: true, AppendMustFit: true}, Match: `/post/canonical|/alloc/`, Timeout: 60})
+				ts = append(ts, Task{Pkg: p, Func: "lenVec", Match: `/post/exact`, Timeout: 60})
+			}
+			return ts
+		},
+		Lemmas: func(w *World, tier string) []Lemma {
+			ls := headerLemmas(w, tier)
+			pre := map[string]string{"20": "AV:", "30": "CVSS:3.0/", "31": "CVSS:3.1/", "40": "CVSS:4.0"}
+			for _, p := range allPkgs {
+				h := pre[p]
+				cs := []string{fmt.Sprintf("(>= (s.len S) %d)", len(h))}
+				for i := 0; i < len(h); i++ {
+					cs = append(cs, fmt.Sprintf("(= (select (s.arr S) (+ (s.off S) %d)) #x%02x)", i, h[i]))
+				}
+				ls = append(ls, Lemma{Name: "C13/lemma/canonical_form_starts_with_own_prefix/" + p, Pkg: p,
+					Script: fmt.Sprintf("(declare-const c %s)\n(declare-const S Str)\n(assert (wf%s c))\n(assert (<= 0 (s.len S)))\n(assert (isCanon%s S c))\n(assert (not (and %s)))\n", typeOf(p), p, p, strings.Join(cs, " "))})
+			}
+			return ls
+		},
 		Trusted: append(append([]string{}, trustedCommon...), "T5 assumed contract of strings.HasPrefix"),
 		Assumptions: []string{
-			"the Vector() side (the serialised string starts with the package's own header and is accepted by its own parser) is the C02 obligation set",
+			"Vector() side: the serialised string is the canonical form (Vector's contract), which starts with the package's own prefix (lemma), hence no other parser accepts it; that its own parser accepts it is the C02 obligation set",
 		},
 	}
 	props["C18"] = &PropDef{
